@@ -888,3 +888,87 @@ func (g *gen) enumRow(ix *astIndex, r regRow) (vals []string, typ string, declar
 	sort.Strings(declared)
 	return
 }
+
+// ---- JSON schema trees (gen/JSchemas.v) ----------------------------------------------------
+
+func (g *gen) coqJKind(t reflect.Type, depth int, stack map[reflect.Type]bool) string {
+	if isDateTime(t) {
+		return "JKTime"
+	}
+	switch t.Kind() {
+	case reflect.String:
+		return "JKString"
+	case reflect.Int, reflect.Int8, reflect.Int16, reflect.Int32, reflect.Int64, reflect.Uint, reflect.Uint8, reflect.Uint16, reflect.Uint32, reflect.Uint64:
+		return "JKInt"
+	case reflect.Float32, reflect.Float64:
+		return "JKFloat"
+	case reflect.Bool:
+		return "JKBool"
+	case reflect.Interface:
+		return "JKAny"
+	case reflect.Ptr:
+		return "(JKPtr " + g.coqJKind(t.Elem(), depth, stack) + ")"
+	case reflect.Slice, reflect.Array:
+		return "(JKSlice " + g.coqJKind(t.Elem(), depth, stack) + ")"
+	case reflect.Struct:
+		if stack[t] || depth > 12 {
+			return "JKAny"
+		}
+		stack[t] = true
+		defer delete(stack, t)
+		var fs []string
+		for i := 0; i < t.NumField(); i++ {
+			f := t.Field(i)
+			if f.PkgPath != "" {
+				continue
+			}
+			js := f.Tag.Get("json")
+			name, omit := js, false
+			if k := strings.IndexByte(js, ','); k >= 0 {
+				name = js[:k]
+				omit = strings.Contains(js[k:], "omitempty")
+			}
+			if js == "" {
+				name = f.Name
+			}
+			fs = append(fs, fmt.Sprintf("(%s, %v, %s)", coqStr(name), omit, g.coqJKind(f.Type, depth+1, stack)))
+		}
+		return fmt.Sprintf("(JKStruct [%s])", strings.Join(fs, ";\n      "))
+	}
+	return "JKAny"
+}
+
+func (g *gen) jschemas() {
+	var sb strings.Builder
+	sb.WriteString("(** Generated by tools/cmd/extract: JSON keys / omitempty / kinds of every request and response type, in Go field order. Do not edit. *)\n")
+	sb.WriteString("From Coq Require Import String List.\nImport ListNotations.\nFrom Verif Require Import M2.Json.\nOpen Scope string_scope.\n\n")
+	var names []string
+	idx := 0
+	for _, v := range []struct {
+		name string
+		ps   []*ocpp.Profile
+	}{{"16", profiles16()}, {"201", profiles201()}} {
+		for _, p := range v.ps {
+			var fn []string
+			for n := range p.Features {
+				fn = append(fn, n)
+			}
+			sort.Strings(fn)
+			for _, n := range fn {
+				f := p.Features[n]
+				for di, t := range []reflect.Type{f.GetRequestType(), f.GetResponseType()} {
+					dn := "req"
+					if di == 1 {
+						dn = "resp"
+					}
+					id := fmt.Sprintf("jschema_%d", idx)
+					idx++
+					sb.WriteString(fmt.Sprintf("Definition %s : jkind := %s.\n", id, g.coqJKind(t, 0, map[reflect.Type]bool{})))
+					names = append(names, fmt.Sprintf("(%s, %s)", coqStr(v.name+"/"+n+"/"+dn), id))
+				}
+			}
+		}
+	}
+	sb.WriteString("\nDefinition jschemas : list (string * jkind) := [\n  " + strings.Join(names, ";\n  ") + "].\n")
+	g.writeIfChanged("JSchemas.v", sb.String())
+}
